@@ -738,6 +738,7 @@ package types
 // signed transaction is attributed to an unrelated address.
 //@ func SignTx(signer Signer, tx *Transaction, prv *ecdsa.PrivateKey) (r *Transaction, err error)
 //@   for C11
+//@   requires tx != nil
 //@   modifies *
 //@   atcall Sign requires [signsTheHashItsSignerVerifies] len(hash) == 32 && (forall i int :: 0 <= i && i < 32 ==> hash[i] == signerHashOf(signer, tx)[i])
 
